@@ -321,8 +321,11 @@ def eager_direct_hit_activeness_graph_level(case, v):
     if v['kind'] == 'unconditional_variable_inactive':
         # a connection variable of an existence pattern with a single matrix is inactive, yet not flagged conditional
         return d.get('kind_var') == 'conn'
+    diff = d.get('diff_kinds')
+    if diff is not None:
+        return len(diff) > 0 and set(diff) <= {'conn'}   # only connection variables differ in activeness
     kinds = d.get('kinds')
-    return True if kinds is None else ('conn' in kinds)
+    return False if kinds is None else ('conn' in kinds)
 
 
 def fast_constraint_autoresolved_choice_inactive(case, v):
